@@ -511,7 +511,9 @@ func respCookie(resp *drive.Resp, name string, now time.Time) (val string, set, 
 		if sc.Name != name {
 			continue
 		}
-		val, set, expired = sc.Value, true, sc.Expired(now) || sc.Value == ""
+		// Expires is written in whole seconds: with a sub-second timeout it may already read as "now".
+		// Only a clearly past date (or Max-Age<=0, or an empty value) tells the client to drop it.
+		val, set, expired = sc.Value, true, sc.Expired(now.Add(-2*time.Second)) || sc.Value == ""
 	}
 	return
 }
@@ -557,6 +559,13 @@ type model struct {
 	fault   bool // a storage fault has fired: only "must not reach" is judged from here on
 }
 
+// ttl is the idle timeout as the oracle reads it: rounded UP to whole seconds, so that together with
+// the 2 s margin "expired" is only claimed at ceil(timeout)+2 s or later, whatever a backend does
+// with fractions of a second (a sub-second token may well be dead at once: not judged).
+func ttl(cfg *hcfg) time.Duration {
+	return (cfg.idle + time.Second - 1) / time.Second * time.Second
+}
+
 func (m *model) status(tok, sid string, now time.Duration) (int, string) {
 	ti := m.tokens[tok]
 	if ti == nil {
@@ -591,7 +600,7 @@ func (m *model) deliver(cl *client, tok, sid string, fresh, stored bool, now tim
 		return // a value the server never generated; status() says not-issued
 	}
 	if fresh {
-		ti.state, ti.deadline, ti.base, ti.extBy, ti.sid = stLive, now+m.cfg.idle, now+m.cfg.idle, "", sid
+		ti.state, ti.deadline, ti.base, ti.extBy, ti.sid = stLive, now+ttl(m.cfg), now+ttl(m.cfg), "", sid
 		if isSession(m.cfg.backend) && stored {
 			// a session holds one token: whatever it held before is replaced
 			for k, o := range m.tokens {
@@ -605,7 +614,7 @@ func (m *model) deliver(cl *client, tok, sid string, fresh, stored bool, now tim
 	st, _ := m.status(tok, sid, now)
 	if st == stLive || st == stUncertain {
 		// use extends the idle timeout (docs: "each subsequent request extends the expiration")
-		ti.state, ti.deadline, ti.extBy = stLive, now+m.cfg.idle, by
+		ti.state, ti.deadline, ti.extBy = stLive, now+ttl(m.cfg), by
 	}
 }
 
@@ -704,6 +713,10 @@ func genCfg(r *gen.Rand, backends []string) *hcfg {
 	}
 	if r.Chance(1, 40) {
 		cfg.idle = 30 * time.Minute
+	}
+	if r.Chance(1, 6) {
+		// timeouts that are not whole seconds
+		cfg.idle = gen.Pick(r, []time.Duration{time.Millisecond, 500 * time.Millisecond, 999 * time.Millisecond, 1500 * time.Millisecond, 2500 * time.Millisecond})
 	}
 	if r.Chance(1, 4) {
 		cfg.cookieName = r.Ident(3, 8)
@@ -1353,7 +1366,7 @@ func (rn *runner) step(s *step) {
 			}
 			m.kill(q.ext, "consumed-single-use")
 		} else if extBefore == stLive || extBefore == stUncertain {
-			ti.state, ti.deadline, ti.extBy = stLive, now+cfg.idle, "unsafe"
+			ti.state, ti.deadline, ti.extBy = stLive, now+ttl(cfg), "unsafe"
 		}
 	}
 	foreignSession := isSession(cfg.backend) && s.sidSel == selOther
